@@ -60,6 +60,11 @@ def role_of(W, f):
         return ["checker"]
     if qn.startswith("_decorate_new_with_invariants"):
         return ["new"]
+    if qn.startswith("_pass_on_to_next_in_mro") or qn == "add_invariant_checks.<locals>.__init__":
+        # a method that the library gives a class lacking it: super(cls, self).<name>(*args, **kwargs)
+        cells = [c.cell_contents for c in (f.__closure__ or ())]
+        if any(isinstance(c, type) for c in cells) and "super" in code.co_names:
+            return ["passon"]
     if qn.startswith("_decorate_with_invariants"):
         doc = code.co_consts[0] if code.co_consts and isinstance(code.co_consts[0], str) else ""
         return ["inv", "__init__" in doc]
@@ -101,7 +106,7 @@ def view_func(W, f):
         meta = False
     if getattr(f, "__isabstractmethod__", False) != getattr(orig, "__isabstractmethod__", False):
         meta = False
-    if chain[-1] != ["orig"]:
+    if chain[-1] not in (["orig"], ["passon"]):
         meta = False
     if not inspect.isfunction(orig):
         meta = True        # a slot wrapper of object (no annotations, no Python signature): nothing to compare
@@ -119,23 +124,58 @@ def view_func(W, f):
             "intro": intro, "meta": meta}
 
 
-def view_member(W, cls, name):
-    sentinel = object()
-    raw = inspect.getattr_static(cls, name, sentinel)
-    if raw is sentinel:
+def pass_on_owner(f):
+    """the class whose pass-on method ends the __wrapped__ chain of f, or None"""
+    cur = f
+    for _ in range(50):
+        if not hasattr(cur, "__wrapped__"):
+            break
+        cur = cur.__wrapped__
+    code = getattr(cur, "__code__", None)
+    qn = getattr(code, "co_qualname", "") if code is not None else ""
+    if qn.startswith("_pass_on_to_next_in_mro") or qn == "add_invariant_checks.<locals>.__init__":
+        for c in (cur.__closure__ or ()):
+            if isinstance(c.cell_contents, type):
+                return c.cell_contents
+    return None
+
+
+def view_along(W, mro, name):
+    """the member as it is reached at run time along the resolution order `mro` (a pass-on method continues with
+    the classes after its owner)"""
+    for i, klass in enumerate(mro):
+        if name not in klass.__dict__:
+            continue
+        raw = klass.__dict__[name]
+        if klass is object or klass is icontract.DBC and not inspect.isfunction(raw):
+            return ["slot"]
+        if isinstance(raw, staticmethod):
+            # Python turns a __new__ defined in a class body into a static method by itself
+            return ["func", "plain" if name == "__new__" else "static", view_func(W, raw.__func__)]
+        if isinstance(raw, classmethod):
+            return ["func", "classm", view_func(W, raw.__func__)]
+        if isinstance(raw, property):
+            return ["prop"] + [view_func(W, a) if a is not None else None for a in (raw.fget, raw.fset, raw.fdel)]
+        if inspect.isfunction(raw):
+            v = view_func(W, raw)
+            owner = pass_on_owner(raw)
+            if owner is not None:
+                if owner is not klass:
+                    v["meta"] = False          # the pass-on method of another class: must not happen
+                nxt = view_along(W, mro[i + 1:], name)
+                if nxt[0] == "func":
+                    w = nxt[2]
+                    return ["func", "plain", {"chain": v["chain"] + w["chain"], "pre": w["pre"], "snaps": w["snaps"],
+                                              "post": w["post"], "intro": w["intro"], "meta": v["meta"]}]
+            return ["func", "plain", v]
+        if isinstance(raw, SLOT_TYPES) or inspect.isbuiltin(raw) or inspect.ismethoddescriptor(raw):
+            return ["slot"]
         return ["absent"]
-    if isinstance(raw, staticmethod):
-        # Python turns a __new__ defined in a class body into a static method by itself
-        return ["func", "plain" if name == "__new__" else "static", view_func(W, raw.__func__)]
-    if isinstance(raw, classmethod):
-        return ["func", "classm", view_func(W, raw.__func__)]
-    if isinstance(raw, property):
-        return ["prop"] + [view_func(W, a) if a is not None else None for a in (raw.fget, raw.fset, raw.fdel)]
-    if inspect.isfunction(raw):
-        return ["func", "plain", view_func(W, raw)]
-    if isinstance(raw, SLOT_TYPES) or inspect.isbuiltin(raw) or inspect.ismethoddescriptor(raw):
-        return ["slot"]
     return ["absent"]
+
+
+def view_member(W, cls, name):
+    return view_along(W, list(cls.__mro__), name)
 
 
 DUNDERS = ["__invariants__", "__invariants_on_call__", "__invariants_on_setattr__"]
